@@ -271,8 +271,10 @@ class SeqCheck:
             e = self.model_entry_for(c)
             reqs.setdefault(e, []).append(c + " # " + o)
             order.append((e, len(reqs[e]) - 1))
-        answers = {e: modelrun(e, r, self.stack_unlimited) for e, r in reqs.items()}
-        model = [answers[e][k] for (e, k) in order]
+        answers = {e: modelrun(e, r, self.stack_unlimited) for e, r in reqs.items() if e is not None}
+        # entry None: no model prediction for this history (oracle only): the observation stands for itself
+        model = [answers[e][k] if e is not None else split3(lines[i])[2] for i, (e, k) in enumerate(order)]
+        model = [self.model_postprocess(lines[i], m) for i, m in enumerate(model)]
         codes = [None] * len(lines)
         if self.oracle_entry:
             ans = modelrun(self.oracle_entry, lines, self.stack_unlimited)
@@ -506,6 +508,10 @@ class SeqCheck:
 
     def model_entry_for(self, conf):
         return self.model_entry
+
+    def model_postprocess(self, line, model_obs):
+        """hook: e.g. replace the prediction by the observation when the model declares the history ambiguous"""
+        return model_obs
 
     def corpus_dir(self):
         return self.harness
